@@ -17,6 +17,17 @@ type Options struct {
 
 // argToOptsKeyVal returns a key value to access the options dictionary by using
 // key as a string or its type if its a serializer driver.
+// clone returns a copy of the options that shares no mutable state with the
+// original: every reader starts from its own copy of the defaults.
+func (o *Options) clone() *Options {
+	c := *o
+	c.formatOptions = make(map[string]interface{}, len(o.formatOptions))
+	for k, v := range o.formatOptions {
+		c.formatOptions[k] = v
+	}
+	return &c
+}
+
 func argToOptsKeyVal(key interface{}) string {
 	keyVal, ok := key.(string)
 	if !ok {
